@@ -65,6 +65,18 @@ def run(ck):
         strat = ["random", rng.randrange(10 ** 9), 0.6] if i % 4 else ["pct", rng.randrange(10 ** 9), 3, 300]
         tasks.append({"scen": "poll", "params": p, "strat": strat, "gran": "line" if i % 5 == 0 else "sync",
                       "facts": {"cancel_fn": p["cancel_fn"], "poll_raise": p["poll_raise"]}})
+    # a delegate completes WHILE a poll call that is going to raise is in progress (the call takes virtual time): the
+    # raise must fail exactly the futures that call was shown
+    for i in range(40 if quick else 400):
+        n = rng.choice([2, 3])
+        jobs = [{"S": 0, "D": 100, "fail": False, "y": rng.choice([0, 2]), "yexc": False, "K": None, "C": True}]
+        for _ in range(n - 1):
+            jobs.append({"S": rng.choice([0, 50]), "D": rng.choice([110, 120, 130]), "fail": False, "y": rng.choice([1, 2]),
+                         "yexc": False, "K": None, "C": True})
+        p = {"flavour": "manual", "jobs": jobs, "cancel_fn": None, "poll_raise": 2, "poll_raise_after": rng.random() < 0.5,
+             "poll_dur": 40, "notify": [], "interval": 500, "horizon": 3000}
+        tasks.append({"scen": "poll", "params": p, "strat": ["random", rng.randrange(10 ** 9), 0.5],
+                      "gran": "line" if i % 4 == 0 else "sync", "facts": {"cancel_fn": None, "poll_raise": 2}})
     ck.run_and_validate(tasks, TRACE)
     # directed two-preemption sweeps (line granularity) around registration, the descriptor snapshot and cancel
     from .. import core as _core
